@@ -148,7 +148,8 @@ def parse_res(line):
     d = {"id": sx[1], "trace": sx_field(sx[2:], "trace") or [], "status": "ok",
          "touched": [int(x) for x in (sx_field(sx[2:], "touched") or [])],
          "missed": (sx_field(sx[2:], "missed") or ["?"])[0], "typed": (sx_field(sx[2:], "typed") or ["?"])[0],
-         "keysdistinct": (sx_field(sx[2:], "keysdistinct") or ["?"])[0], "front": (sx_field(sx[2:], "front") or ["?"])[0]}
+         "keysdistinct": (sx_field(sx[2:], "keysdistinct") or ["?"])[0], "front": (sx_field(sx[2:], "front") or ["?"])[0],
+         "outofmodel": (sx_field(sx[2:], "outofmodel") or ["0"])[0]}
     if sx_field(sx[2:], "err") is not None:
         d["status"] = "err"
     elif sx_field(sx[2:], "panic") is not None:
@@ -275,6 +276,10 @@ def engine_projection(ctx, results, what_checks):
         if len(ctx.samples) < 3 and inp.get("patches") and any(t.startswith("k") for t in impl["trace"]):
             ctx.sample({"id": inp["id"], "patch": inp["patches"][0][:600], "src": (inp.get("src") or "")[:600],
                         "trace": tr})
+        if model.get("outofmodel") == "1":
+            # a change rewrites a slot inside an import declaration: the model keeps imports as a list next to the tree
+            ctx.count("out_of_model:site-inside-import-declaration")
+            continue
         ctx.count("front:" + str(impl.get("front")))
         if impl.get("front") == "0" and ("content" in what_checks or "where" in what_checks):
             # the pattern the engine compiled is not what the patch text denotes (front end: sectioning, '-'/'+' split,
@@ -2625,6 +2630,10 @@ def unstable_intermediate(harness, chain, src):
     finally:
         shutil.rmtree(d, ignore_errors=True)
 
+@signature("comment-placement-in-intermediate-file")
+def sig_comment_placement(sig, what, payload):
+    return bool(payload.get("comment_placement_only"))
+
 @signature("paren-in-later-minus")
 def sig_paren_minus(sig, what, payload):
     chain = (payload.get("input") or {}).get("chain") or []
@@ -2742,9 +2751,13 @@ def c09(ctx):
             # comment-rich variant of the same file: comment surgery between changes must not break the sequence
             src = inject_comments(rng, c["src"])
             if src and parses_go(ctx, src):
-                c = dict(c, src=src)
+                c = dict(c, src=src, src_plain=c["src"])
         todo.append((c, hows[i % len(hows)]))
     todo.append((dict(F7_WITNESS), "flags"))
+    for kf in ctx.known:
+        if kf["id"] == "F25":
+            w = kf["witness"]
+            todo.append(({"id": "f25", "chain": w["chain"], "src": w["src"], "src_plain": w["src_plain"]}, w.get("given_as") or "flags"))
     todo.append(({"id": "f16", "chain": ["@@\nvar f identifier\n@@\n func f(...) {\n-  ...\n }\n", "@@\nvar x expression\n@@\n-x == nil\n+nil == x\n"],
                   "src": "package a\n\nfunc g() bool { return x == nil }\n\nfunc f() {\n\ta(nil, // c\n\t)\n}\n"}, "flags"))
     # witnesses of repaired defects
@@ -2766,7 +2779,14 @@ def c09(ctx):
         ctx.count("load:" + how)
         ctx.nontrivial.add(json.dumps(c["chain"]) + c["src"])
         if problem:
+            printer_only = False
+            if c.get("src_plain") and "step " in problem and ("format.Node" in problem or "reformat" in problem or "not valid Go" in problem):
+                # F25: is it only where the comments end up in the printed intermediate file? the same chain on the file
+                # without the injected comments must be fine
+                p2, _, _ = chain_check(ctx, dict(c, src=c["src_plain"]), how)
+                printer_only = p2 is None
             ctx.violation(problem, {"input": {"chain": c["chain"], "src": c["src"], "given_as": how}, "harness": ctx.harness,
+                                    "comment_placement_only": printer_only,
                                     "combined": cb[-800:], "chained": sb[-800:],
                                     "reproduce": "gopatch -p c0.patch -p c1.patch ... a.go   versus   gopatch -p c0.patch a.go; gopatch -p c1.patch a.go; ..."})
 
